@@ -130,7 +130,7 @@ pub fn run(ctx: &Ctx) -> i32 {
                 for soff in soffs {
                     k += 1;
                     let c = pick_scalar(isa, op, k);
-                    one(doff, soff, c, content + (k as u64 % 6) * (contents == 1) as u64, &mut local);
+                    one(doff, soff, c, (content + k as u64) % 6, &mut local);
                     calls += 1;
                 }
             }
@@ -141,7 +141,7 @@ pub fn run(ctx: &Ctx) -> i32 {
                         continue;
                     }
                     for (doff, soff) in [(0usize, 0usize), (1 + (c as usize % 63), 3 + (len % 5))] {
-                        one(doff, soff, c, content + (c as u64 % 6) * (contents == 1) as u64, &mut local);
+                        one(doff, soff, c, (content + c as u64) % 6, &mut local);
                         calls += 1;
                     }
                 }
